@@ -8,6 +8,7 @@ the header-truthfulness and old-decoder interoperability rules."""
 import random
 
 from .. import codec, core
+from . import c05_r2
 
 
 def rand_ops(rng, n):
@@ -141,7 +142,10 @@ def run(ctx):
                        "attach prefs)}, half of the one-shot/dict cases with windowLog 10-12 and long-range repetition so the window rule bites; "
                        "each frame: R strict (window rule, block limit incl. maxBlockSize, reserved bits, exact consumption, content size, checksum) "
                        "+ trace rules (truthful header fields, dictID, interop rules); distinct = distinct (trace signature, mode); "
-                       "non-trivial = non-empty input")
+                       "non-trivial = non-empty input; round 2 (zv/props/c05_r2.py): multi-job multithreaded frames, ZSTD_compress_advanced / buffer-less API / "
+                       "ZSTD_compressBlock with raw parameter vectors, ZSTD_copyCCtx, the ZSTD_initCStream* family, several frames on one context, "
+                       "ZSTD_writeSkippableFrame, pledged sizes / ZSTD_e_end-only / hints / windowLog up to 31, targetCBlockSize x small windows x dictionaries, "
+                       "same judge + frame header and skippable writer compared byte for byte with the serialiser model")
     ctx.prove()
     cd = codec.Codec(ctx)
     rng = random.Random(ctx.seed)
@@ -209,4 +213,6 @@ def run(ctx):
         if len(c["x"]) < 40:
             ctx.sample(dict(mode=c["mode"], params=c["params"], input_hex=c["x"].hex(), frame_hex=c["frame"].hex()))
     ctx.notes["modes_validated"] = hist
+    # round 2: entry points x parameter combinations x histories of zv/props/c05_r2.py (harness/c05_entries.c)
+    c05_r2.run_r2(ctx, cd, random.Random(ctx.seed * 7919 + 5))
     ctx.proof_verdict(None)
